@@ -113,6 +113,30 @@ def gen_deferred_script(rng):
     return '\n'.join(L) + '\n'
 
 
+def gen_busy_deferred_script(rng):
+    """Deletes in a closed blob keep arriving more often than deferred_min_time for longer than deferred_max_time: the
+    re-dump of its index must happen about max after the FIRST of them, while the stream is still going on (the maximum
+    defer time bounds the postponement; a dump that is re-postponed by every event never happens under load)."""
+    K = 4
+    dmin, dmax = rng.choice([(150, 700), (200, 800)])
+    L = ['cfg K=4 dup=1 group=%d bloom=none init=eager runtime=%s defer=%d:%d' % (rng.choice([2, 8]), rng.choice(['mt', 'ct']), dmin, dmax), 'open']
+    nk = 30
+    for i in range(nk):
+        L.append('W %s 5 - 5 %d' % ((i + 1).to_bytes(K, 'big').hex(), i + 1))
+    L += ['close_active', 'quiesce', 'nop base', 'ls', 'create_active', 'autoquiesce 0']
+    gap = dmin // 3
+    n_before = (dmax + 600) // gap + 1
+    for j in range(min(n_before, nk - 3)):
+        L.append('D %s %d - 1' % ((j + 1).to_bytes(K, 'big').hex(), 50 + j))
+        L.append('sleep %d' % gap)
+    L += ['nop redump=0 %d' % (57 + K), 'ls']
+    for j in range(min(n_before, nk - 3), nk):
+        L.append('D %s %d - 1' % ((j + 1).to_bytes(K, 'big').hex(), 50 + j))
+        L.append('sleep %d' % gap)
+    L += ['autoquiesce 1', 'quiesce', 'counts', 'close']
+    return '\n'.join(L) + '\n'
+
+
 def gen_rotation_script(rng):
     """Rotation after a rotation request that came to nothing: the switch asked for by an overflowing write FAILS (the
     file of the next blob cannot be created) or has become MOOT when the worker gets to it (the full blob was closed by
@@ -157,7 +181,7 @@ def gen_rotation_script(rng):
 def gen(tier, rng):
     n = 96 if tier == 'quick' else 1500
     return [('bg%05d' % i, gen_script(rng)) for i in range(n)] + [('spaced%05d' % i, gen_spaced_script(rng)) for i in range(n // 4)] + \
-           [('deferred%05d' % i, gen_deferred_script(rng)) for i in range(n // 6)] + [('rotation%05d' % i, gen_rotation_script(rng)) for i in range(n // 4)]
+           [('deferred%05d' % i, gen_deferred_script(rng)) for i in range(n // 6)] + [('rotation%05d' % i, gen_rotation_script(rng)) for i in range(n // 4)] + [('busy%05d' % i, gen_busy_deferred_script(rng)) for i in range(n // 10)]
 
 
 def next_of(line):
